@@ -81,7 +81,10 @@ def spans(read, p):
 
 
 def oracle(reads, k, sel):
-    """property predicates on an index collection `sel`; returns list of (key, text)"""
+    """property predicates on an index collection `sel`; returns list of (key, text).
+    A maximality failure gets the key of defect F9 only if F9 can explain it: under F9 the coverage monitor is
+    at most (true span count + span count of the selected preferred reads, which are added a second time);
+    if the left-out read is not saturated even under that upper bound the failure is something else."""
     out = []
     n = len(reads)
     bad = [i for i in sel if not (0 <= i < n)]
@@ -103,7 +106,10 @@ def oracle(reads, k, sel):
             continue
         if not any(spans(reads[i], p) and cnt[p] >= k for p in positions):
             m = max(cnt[p] for p in positions if spans(reads[i], p))
-            out.append(("maximal", f"read {i} left out although every variant it spans is spanned by at most {m} < {k} selected reads"))
+            twice = {p: cnt[p] + sum(1 for j in s if reads[j][2] and spans(reads[j], p)) for p in positions}
+            f9 = any(spans(reads[i], p) and twice[p] >= k for p in positions)
+            out.append((KEY_MAXIMAL_PREF if f9 else "maximal",
+                        f"read {i} left out although every variant it spans is spanned by at most {m} < {k} selected reads"))
             break
     return out
 
@@ -143,8 +149,6 @@ class Lib:
         else:
             fails = oracle(reads, k, impl)
             for key, text in fails:
-                if key == "maximal" and has_pref:
-                    key = KEY_MAXIMAL_PREF
                 ctx.fail(f"readselection: {text}", {"lib": case}, key=key)
             if 0 < len(impl) < len(reads):
                 ctx.nontrivial(case_key(case))
@@ -173,7 +177,7 @@ class Lib:
                 py = oracle(case["reads"], case["k"], impl)
                 lean = ans[0]
                 pyflags = {"subset": not any(k == "subset" for k, _ in py), "cap": not any(k == "cap" for k, _ in py),
-                           "maximal": not any(k == "maximal" for k, _ in py)}
+                           "maximal": not any(k in ("maximal", KEY_MAXIMAL_PREF) for k, _ in py)}
                 if pyflags["subset"] and lean != pyflags:
                     ctx.disagree("c07.spec", {"lib": case}, pyflags, lean)
             if len(reqs) > 1:
@@ -201,9 +205,7 @@ def shrink_lib_failure(case, key):
         impl = run_impl(c)
         if impl == "ValueError":
             return False
-        ks = {k for k, _ in oracle(reads, c["k"], impl)}
-        want = "maximal" if key == KEY_MAXIMAL_PREF else key
-        return want in ks and (key != KEY_MAXIMAL_PREF or any(r[2] for r in reads))
+        return key in {k for k, _ in oracle(reads, c["k"], impl)}
     try:
         return dict(case, reads=shrink_list(case["reads"], still, min_len=1))
     except Exception:
@@ -246,11 +248,9 @@ def check_trace_record(ctx, rec, case):
         if not ok:
             ctx.fail(f"sample {s}: a selected read is not among the sample's candidate reads", case, key="pipeline-subset")
             continue
-        reads = [[list(t[2]), [0] * len(t[2]), 0] for t in cand]
-        has_pref = bool(c["preferred_source_ids"]) and any(r["source_id"] in c["preferred_source_ids"] for r in c["reads"])
+        prefs = set(c["preferred_source_ids"] or [])
+        reads = [[list(t[2]), [0] * len(t[2]), 1 if r["source_id"] in prefs else 0] for t, r in zip(cand, c["reads"])]
         for key, text in oracle(reads, kps, sorted(idx)):
-            if key == "maximal" and has_pref:
-                key = KEY_MAXIMAL_PREF
             ctx.fail(f"whatshap phase, sample {s}, {rec['chromosome']}: {text}", case, key="pipeline-" + key)
         if len(sel) < len(cand):
             discarded = True
@@ -369,6 +369,9 @@ def run(ctx):
         lib.check(G.large_case(rng), False, "large")
     lib.flush()
     if not ctx.quick and not ctx.escalated:
+        for _ in range(20):
+            lib.check(G.large_case(rng, 10), False, "huge")
+        lib.flush()
         cnt = 0
         for case in G.exhaustive_cases(max_reads=3, npos=4):
             lib.check(case, True, "exhaustive"); cnt += 1
@@ -388,7 +391,7 @@ def run(ctx):
             small = shrink_lib_failure(case["lib"], key)
             if len(small["reads"]) < len(case["lib"]["reads"]):
                 impl = run_impl(small)
-                texts = [t for k, t in oracle(small["reads"], small["k"], impl) if k == ("maximal" if key == KEY_MAXIMAL_PREF else key)]
+                texts = [t for k, t in oracle(small["reads"], small["k"], impl) if k == key]
                 if texts:
                     ctx.fails[i] = ("readselection: " + texts[0] + " (shrunk)", {"lib": small}, key)
 
